@@ -161,7 +161,7 @@ def run(project, chk):
               message="hex digits are not validated before int(pair, 16): Color('#-f0000') becomes a *valid* colour with a negative component, and make_readable then raises instead of returning (None, False)")
     # hsl()/hsla(): S, L (and alpha) are range-checked before the conversion (otherwise channels leave 0..255)
     from sa.formula import compare, Policy, transform, reference
-    from checks.C07 import raise_guards
+    from sa.formula import raise_guards, guards_cover
     GUARD_REF = "def g2(s, l):\n    return not (0 <= s <= 1 and 0 <= l <= 1)\n\ndef g3(s, l, a):\n    return not (0 <= s <= 1 and 0 <= l <= 1 and 0 <= a <= 1)\n"
     for q, names, entry in (("cm_colors.core.conversions.hsl_to_rgb", ("s", "l"), "g2"), ("cm_colors.core.conversions.hsla_to_rgb", ("s", "l", "a"), "g3")):
         gfi = project.func(q)
@@ -172,7 +172,8 @@ def run(project, chk):
         except (Unsupported, KeyError) as e:
             raise AnalysisError(f"ANALYSIS-INCONCLUSIVE {gfi.short}: {e}")
         ref = reference(GUARD_REF, entry)
-        found = any(not compare(g, ref, Policy()) for g in raise_guards(gabs))
+        guards = raise_guards(gabs)
+        found = guards_cover(guards, ref)
         chk.check(found, "V1", gfi.short, f"range check of {', '.join(names)}", project.loc(gfi.module, gfi.node), f"{gfi.name} raises unless {' and '.join('0 <= ' + v + ' <= 1' for v in names)}",
                   how="one of the raise guards preceding the conversion is exactly that range test", message=f"{gfi.name} does not reject {'/'.join(names)} outside [0, 1] before converting: out-of-range input yields a 'valid' colour with components outside 0..255")
     pfi = project.func("cm_colors.core.color_parser.parse_color_to_rgb")
@@ -200,6 +201,8 @@ def run(project, chk):
         for q, fi in sorted(mod.funcs.items()):
             if fi.cls == "Color" and fi.name in ("rgb", "is_valid", "__init__"):
                 continue
+            if fi.qualname in project.transparent:
+                continue        # a private helper introduced after the pinned tree, inlined into (and judged with) each of its callers
             sc = Scope(project, fi)
             cfg = None
             G = None
